@@ -2,7 +2,7 @@
 
 Exhaustive exploration of the real parser (`KlongInterpreter.prog`), no model of it:
 
- (a) every concatenation of <= 2 (quick) / <= 3 (thorough) tokens of a 50-token alphabet that covers every lexeme
+ (a) every concatenation of <= 2 (quick) / <= 3 (thorough) tokens of a 54-token alphabet that covers every lexeme
      class and every prefix a reader can stop in, parsed starting in the default module and in a module `m`;
  (b) every token-level single edit (delete a token, insert one of 12 structural tokens at every position, swap two
      adjacent tokens, truncate after every token) of every distinct non-blank line of the .kg corpus
@@ -71,6 +71,8 @@ ALPHABET = [
     "'", ':\\', ":'", ':/', '/', ':~', ':*', '\\', '\\~', '\\*', "@'",
     # white space, parse-time system calls
     ' ', '\n', '.comment("x")', '.module(:m)',
+    # the parse-time calls in pieces (their argument is arbitrary text: empty marker, no marker, unclosed call)
+    '.comment("")', '.comment(', '.module(', '""',
 ]
 
 STRUCT = ['(', ')', '{', '}', '[', ']', ';', ':[', ':|', ':{', '"', '\n']      # tokens inserted by edits
@@ -1140,7 +1142,7 @@ def selftest():
     assert ''.join(rendered(tokenize(' a  + 1'))) == ' a + 1'
     assert 'a+' in single_edits('a+1') and '+a1' in single_edits('a+1') and 'a[+1' in single_edits('a+1')
     assert '+' in double_edits('a+1') and 'a+1' not in double_edits('a+1') and 'a' not in double_edits('a+1')
-    assert len(ALPHABET) == len(set(ALPHABET)) == 50
+    assert len(ALPHABET) == len(set(ALPHABET)) == 54
     # signature: sensitive to arity, operator, literal kind, array contents; insensitive to object identity
     k = KlongInterpreter()
     p = lambda s: deep_sig(k.prog(s)[1])
